@@ -51,6 +51,9 @@ type callTokenData struct {
 	CallID    string // 32-char lowercase hex; binds this call to its cursors
 	SchemaIPC []byte // serialized output schema for dynamic methods; nil for static
 	StreamID  string // stable across init/continuations of one stream call
+	// InputSchemaIPC is the input schema a dynamic exchange method declared
+	// in its StreamResult; nil when the registration already fixes it.
+	InputSchemaIPC []byte
 }
 
 // cursorTokenData is the advancing half: re-minted every turn under
@@ -68,8 +71,9 @@ type cursorTokenData struct {
 // resolvedCall is what an authenticated CallID resolves to — either from the
 // cache or by opening the client's call token.
 type resolvedCall struct {
-	SchemaIPC []byte
-	StreamID  string
+	SchemaIPC      []byte
+	InputSchemaIPC []byte
+	StreamID       string
 	// CreatedAt is the call token's mint time, kept so a cache hit enforces
 	// the same TTL that reopening the token would.
 	CreatedAt int64
@@ -444,6 +448,14 @@ func normalizeTokenKey(key []byte) []byte {
 // packCallToken seals the half of a stream's state that is fixed for the
 // life of the call. Minted once, by /init; never re-issued.
 func (h *HttpServer) packCallToken(callID string, outputSchema *arrow.Schema, auth *AuthContext, streamID string) ([]byte, error) {
+	return h.packCallTokenFor(callID, outputSchema, nil, auth, streamID)
+}
+
+// packCallTokenFor is packCallToken for a stream whose input schema is only
+// known from the handler's StreamResult (dynamic exchange methods): the
+// continuation route has no registration to read it from, so it travels with
+// the call like the output schema does.
+func (h *HttpServer) packCallTokenFor(callID string, outputSchema, inputSchema *arrow.Schema, auth *AuthContext, streamID string) ([]byte, error) {
 	data := callTokenData{
 		CreatedAt: time.Now().Unix(),
 		CallID:    callID,
@@ -452,13 +464,16 @@ func (h *HttpServer) packCallToken(callID string, outputSchema *arrow.Schema, au
 	if outputSchema != nil {
 		data.SchemaIPC = serializeSchema(outputSchema)
 	}
+	if inputSchema != nil {
+		data.InputSchemaIPC = serializeSchema(inputSchema)
+	}
 	token, err := h.sealToken(callTokenVersion, &data, callTokenAad(auth))
 	if err != nil {
 		return nil, err
 	}
 	// Warm the cache with the values we already hold, so this stream's first
 	// continuation does not have to open the token it was just handed.
-	h.callStates.put(callID, auth, &resolvedCall{SchemaIPC: data.SchemaIPC, StreamID: streamID, CreatedAt: data.CreatedAt})
+	h.callStates.put(callID, auth, &resolvedCall{SchemaIPC: data.SchemaIPC, InputSchemaIPC: data.InputSchemaIPC, StreamID: streamID, CreatedAt: data.CreatedAt})
 	return token, nil
 }
 
@@ -535,7 +550,7 @@ func (h *HttpServer) resolveCall(cursor *cursorTokenData, callToken []byte, auth
 		return nil, &RpcError{Type: "RuntimeError", Message: "Malformed state token"}
 	}
 
-	got := &resolvedCall{SchemaIPC: data.SchemaIPC, StreamID: data.StreamID, CreatedAt: data.CreatedAt}
+	got := &resolvedCall{SchemaIPC: data.SchemaIPC, InputSchemaIPC: data.InputSchemaIPC, StreamID: data.StreamID, CreatedAt: data.CreatedAt}
 	h.callStates.put(cursor.CallID, auth, got)
 	return got, nil
 }
